@@ -416,7 +416,11 @@ func explore(t *testing.T, job *Job, scs []*Scenario) {
 		if s.Nontrivial {
 			out.Nontrivial++
 			if len(sigs) < 3_000_000 {
-				sigs[s.sigHash^strHash(sc.Name)] = struct{}{}
+				sg := s.sigHash
+				if s.SigFromTrace {
+					sg = s.hash
+				}
+				sigs[sg^strHash(sc.Name)] = struct{}{}
 			}
 			if len(out.Samples) < 3 && len(s.Sample) > 0 {
 				out.Samples = append(out.Samples, append([]string{"scenario=" + sc.Name, fmt.Sprintf("seed=%d", seed)}, s.Sample...))
